@@ -33,7 +33,7 @@ extern MPT_STRUCT(config_item) *mpt_config_item_query(const _MPT_UARRAY_TYPE(MPT
 	if (buf->_content_traits != mpt_config_item_traits()) {
 		return 0;
 	}
-	item_count = buf->_size / sizeof(*item);
+	item_count = buf->_used / sizeof(*item);
 	item = (MPT_STRUCT(config_item) *) (buf + 1);
 	while (item_count--) {
 		if (item->identifier._len == 0
